@@ -52,6 +52,82 @@ def discharge(db, mono, fn, s, stream):
     return None
 
 
+NONDESC_STATS = {"edges": 0}
+FMT_ARG = re.compile(r"^core::fmt::rt::Argument::<'_>::new_(display|debug|lower_exp|upper_exp|lower_hex|upper_hex|octal|binary|pointer)$")
+FMT_TRAIT = {"display": "std::fmt::Display", "debug": "std::fmt::Debug", "lower_exp": "std::fmt::LowerExp"}
+
+
+def nondescending_cycles(db, local_dps):
+    """cycles over local functions where each edge passes param 1 itself as the callee's first argument"""
+    from qv.engine import callee_of, callee_path, fn_expr_operand
+    from qv.rules.guards import root
+
+    edges = {}
+    for dp in local_dps:
+        f = db.by_dp.get(dp)
+        if f is None or f.argc < 1:
+            continue
+        for bb, t, c in f.calls():
+            if c is None or not t["args"]:
+                continue
+            p = callee_path(c)
+            target = None
+            m = FMT_ARG.match(p)
+            if m:
+                tr = FMT_TRAIT.get(m.group(1))
+                # T is the first generic arg; strip references
+                if tr and c.get("args"):
+                    ty = db.types[c["args"][0]]
+                    while ty["k"] == "ref":
+                        ty = db.types[ty["t"]]
+                    if ty["k"] == "adt":
+                        hs = db.trait_impl(tr, ty["path"], "fmt")
+                        if len(hs) == 1:
+                            target = hs[0]
+            else:
+                hs = db.by_path.get(p, [])
+                if len(hs) == 1 and hs[0].dp in local_dps:
+                    target = hs[0]
+            if target is None:
+                continue
+            NONDESC_STATS["edges"] += 1
+            # same-value edge: every argument is one of the caller's own parameters, unchanged
+            # (no field projection, no computed value); a descending or fresh argument breaks the cycle
+            same = True
+            nparams = 0
+            for a in (t["args"][:1] if m else t["args"]):
+                e = fn_expr_operand(f, a)
+                r, path = root(e)
+                if r[0] == "param" and not path:
+                    nparams += 1
+                elif r[0] == "const":
+                    continue
+                else:
+                    same = False
+            if same and nparams:
+                edges.setdefault(f.path, set()).add(target.path)
+    # cycles in the same-value graph
+    cycles = []
+    seen_in_cycle = set()
+    for start in sorted(edges):
+        if start in seen_in_cycle:
+            continue
+        stack = [(start, [start])]
+        visited = set()
+        while stack:
+            node, pth = stack.pop()
+            for nxt in sorted(edges.get(node, ())):
+                if nxt == start:
+                    cycles.append(set(pth))
+                    seen_in_cycle.update(pth)
+                    stack = []
+                    break
+                if nxt not in visited and nxt in edges:
+                    visited.add(nxt)
+                    stack.append((nxt, pth + [nxt]))
+    return cycles
+
+
 WITNESS = {
     "todo": "a program starting with `NONBLOCKING` followed by anything but PULSE/CAPTURE/RAW-CAPTURE, e.g. `NONBLOCKING X 0`",
     "panic": "a signed operand that is not a literal, e.g. `ADD ro +ro`",
@@ -145,6 +221,16 @@ def run(ctx):
         if consumes_input:
             nrec += 1
             res.find(key, fns[0].loc(), "unbounded input-driven recursion (no depth bound): cycle {%s}; deeply nested input overflows the stack, which aborts the process" % ", ".join(x.replace("quil_rs::", "") for x in named), "an expression of 10000 nested parentheses / deeply nested DEFCAL blocks")
+
+    # non-descending recursion: a cycle of local functions in which every call passes the caller's own
+    # first argument unchanged (no field projection) recurses forever on every value reaching it
+    nd = nondescending_cycles(db, local)
+    for cyc in nd:
+        key = "K1|nondescending-recursion|" + sorted(cyc)[0]
+        f0 = db.by_path[sorted(cyc)[0]][0]
+        res.site(key, True, {"cycle": sorted(cyc), "verdict": "VIOLATION"})
+        res.find(key, f0.loc(), "recursion cycle in which each function passes its own `self` on unchanged: {%s}; any value reaching it overflows the stack (process abort)" % ", ".join(x.replace("quil_rs::", "") for x in sorted(cyc)), "a parse error positioned at a token that takes this path")
+    res.count("same_value_call_edges_examined", NONDESC_STATS["edges"])
 
     res.count("reachable_local_functions", len(local), floor=300)
     res.count("panic_capable_sites", nsites, floor=15)
